@@ -112,8 +112,11 @@ def generate(rng, tier):
                 up = (m - first) // size           # largest step that still fits above
                 down = first // size               # ... below
                 ks = [0, 1, -1, 2, -2, up, up + 1, -down, -down - 1, up - 1, rng.randrange(-5, 6),
-                      rng.randrange(-(1 << p) - 2, (1 << p) + 3), 1 << 130, -(1 << 130)]
-                for k in rng.sample(ks, 5):
+                      rng.randrange(-(1 << p) - 2, (1 << p) + 3), 1 << 130, -(1 << 130),
+                      # beyond the interpreter's int-to-str digit limit (4300), either sign: an error message that
+                      # formats the step must not turn the IndexError into a ValueError (seed C11-r11-2)
+                      10 ** 4300, -(10 ** 4300), rng.choice([1, -1]) * (10 ** rng.choice([4301, 5000]) + rng.getrandbits(16))]
+                for k in rng.sample(ks, 6):
                     kind = rng.choice(('next', 'prev', 'iadd', 'isub'))
                     if kind in ('prev', 'isub') and rng.random() < 0.7:
                         k = -k                      # mirror: keep the interesting boundaries for '-' too
@@ -214,7 +217,14 @@ def impl(c):
     if kind == 'subtake':
         q, cnt, limit = a[4:]
         try:
-            l = list(itertools.islice(n.subnet(q, count=cnt), limit))
+            g = n.subnet(q, count=cnt)
+            l = list(itertools.islice(g, min(limit, 1)))
+            if limit > 1:
+                # the blocks of N are those of N as it was when the iteration began: the receiver is moved in place
+                # between the first and the second block (seed C11-r11-1 re-read the receiver on every step)
+                common.COUNTS['call/receiver-moved-mid-iteration'] += 1
+                common.disturb(n)
+                l += list(itertools.islice(g, limit - 1))
         except Exception as e:
             return '!' + errname(e)
         return plist(_show(x) for x in l)
